@@ -189,5 +189,64 @@ theorem rho_one_qubit_Z (t : Tab) (hn : t.n = 1) (hv : t.Valid) (hr : t.StabReal
   rw [t1, proj_Zq_site 0 0 (Nat.le_refl 0) s, trace_insSite 0 (Nat.le_refl 0), Matrix.trace_one, card_bits]
   cases s <;> simp [ketbra, Matrix.trace]
 
+/-! ### a product state is the Kronecker product of its marginals -/
+
+theorem embedCols_range_eq_truncCols (na nb : Nat) (P' : PRow) :
+    EqOn (na + nb) (embedCols (removalList (na + nb) (List.range na)) P') (P'.truncCols na) := by
+  have hpw := removalList_desc (na + nb) (List.range na)
+  refine ⟨fun j hj => ?_, (embedCols_r _ P').1, (embedCols_r _ P').2⟩
+  by_cases hlt : j < na
+  · have := embedCols_low _ na (fun x hx => ((mem_removalList_range na nb x).mp hx).1) P' j hlt
+    simp [PRow.truncCols, hlt, this.1, this.2]
+  · have := embedCols_idOn _ hpw P' j ((mem_removalList_range na nb j).mpr ⟨by omega, hj⟩)
+    simp [PRow.truncCols, hlt, this.1, this.2]
+
+theorem embedCols_right_eq_shiftCols (na nb : Nat) (Q' : PRow) :
+    EqOn (na + nb) (embedCols (removalList (na + nb) (rightSites na nb)) Q') (Q'.shiftCols na) := by
+  have hpw := removalList_desc (na + nb) (rightSites na nb)
+  refine ⟨fun j _ => ?_, (embedCols_r _ Q').1, (embedCols_r _ Q').2⟩
+  by_cases hlt : j < na
+  · have := embedCols_idOn _ hpw Q' j ((mem_removalList_right na nb j).mpr hlt)
+    simp [PRow.shiftCols, hlt, this.1, this.2]
+  · have := embedCols_high _ hpw Q' j (fun x hx => by have := (mem_removalList_right na nb x).mp hx; omega)
+    rw [removalList_right_length] at this
+    simp [PRow.shiftCols, hlt, this.1, this.2]
+
+/-- **a state that is a product across the cut `first na | last nb` is the Kronecker product of its two marginals**: if
+    the stabilizer group factorises across the cut (both ways), then `ρ(t) = ρ(partial_trace onto the first na qubits) ⊗
+    ρ(partial_trace onto the last nb qubits)` — the converse of `rho_tensor` -/
+theorem rho_product_of_marginals (na nb : Nat) (t tA tB : Tab) (osA osB : List Bool) (hn : t.n = na + nb)
+    (hv : t.Valid) (hr : t.StabReal)
+    (hfB : Factor t (removalList t.n (List.range na))) (hfA : Factor t (removalList t.n (rightSites na nb)))
+    (hA : t.partialTrace (List.range na) osA = .ok tA) (hB : t.partialTrace (rightSites na nb) osB = .ok tB) :
+    rho (na + nb) (STab.ofTab t) = kronB (rho na (STab.ofTab tA)) (rho nb (STab.ofTab tB)) := by
+  obtain ⟨nA, gA⟩ := partialTrace_factor_grp t tA (List.range na) osA hv hr hfB hA
+  obtain ⟨nB, gB⟩ := partialTrace_factor_grp t tB (rightSites na nb) osB hv hr hfA hB
+  rw [hn] at nA gA nB gB
+  rw [removalList_range_length] at nA
+  rw [removalList_right_length] at nB
+  have hnA : tA.n = na := by omega
+  have hnB : tB.n = nb := by omega
+  have vA := partialTrace_valid t tA _ osA hv hA
+  have vB := partialTrace_valid t tB _ osB hv hB
+  have rA : tA.StabReal := by
+    intro i h1 h2
+    have := grp_real t hv hr _ ((gA _).mp (grp_row tA i h1 h2))
+    rw [(embedCols_r _ _).2] at this; exact this
+  have rB : tB.StabReal := by
+    intro i h1 h2
+    have := grp_real t hv hr _ ((gB _).mp (grp_row tB i h1 h2))
+    rw [(embedCols_r _ _).2] at this; exact this
+  subst hnA; subst hnB
+  rw [← rho_tensor tA tB]
+  apply rho_eq_of_gens (tA.n + tB.n) t (tensor2 tA tB) hn rfl hv hr (tensor2_valid tA tB vA vB)
+    (tensor_stabReal tA tB rA rB)
+  intro i hi
+  by_cases hlt : i < tA.n
+  · rw [tensor_stab_left tA tB i hlt]
+    exact InSpan.eqv _ _ ((gA _).mp (grp_gen tA i hlt)) (hn ▸ embedCols_range_eq_truncCols tA.n tB.n _)
+  · rw [tensor_stab_right tA tB i (by omega) hi]
+    exact InSpan.eqv _ _ ((gB _).mp (grp_gen tB (i - tA.n) (by omega))) (hn ▸ embedCols_right_eq_shiftCols tA.n tB.n _)
+
 end Hilbert
 end Graphiq
